@@ -1,11 +1,12 @@
 #!/bin/sh
-# usage: benign_collect.sh Cxx  -- store the sub-agent's property-preserving patches under benign/ and drop its worktree
-p=$1
+# usage: benign_collect.sh Cxx [first-number]  -- store the sub-agent's property-preserving patches under benign/ and drop its worktree
+p=$1; n=${2:-1}
 for k in 1 2 3 4; do
-  if [ -f /tmp/benignwork_$p/b$k/patch.diff ]; then
-    mkdir -p /verif/benign/$p-$k && cp /tmp/benignwork_$p/b$k/patch.diff /tmp/benignwork_$p/b$k/check.py /tmp/benignwork_$p/b$k/meta.json /verif/benign/$p-$k/
+  if [ -f /tmp/benignwork_$p/b$k/patch.diff ] && [ -f /tmp/benignwork_$p/b$k/meta.json ]; then
+    mkdir -p /verif/benign/$p-$n && cp /tmp/benignwork_$p/b$k/patch.diff /tmp/benignwork_$p/b$k/check.py /tmp/benignwork_$p/b$k/meta.json /verif/benign/$p-$n/
+    n=$((n+1))
   fi
 done
 git -C /repo worktree remove --force /tmp/benign_$p 2>/dev/null
 rm -rf /tmp/benignwork_$p
-ls -d /verif/benign/$p-*
+ls -d /verif/benign/$p-* | tr '\n' ' '; echo
